@@ -70,6 +70,15 @@ pub fn drain_rev_onto_flag(child_vec: &mut Vec<ExprRef>, todo: &mut Vec<FlagItem
             forall|i: int| old(todo)@.len() <= i < final(todo)@.len() ==> !(#[trigger] final(todo)@[i]).1,
 { unimplemented!() }
 
+/// ASSUMED (Rust allocation limit): a vector of a non-zero-sized element type holds at most isize::MAX bytes, so `len() + 1`
+/// cannot overflow `usize`
+pub broadcast proof fn ax_vec_len_refs(v: &Vec<ExprRef>)
+    ensures #[trigger] v@.len() < isize::MAX,
+{ admit(); }
+pub broadcast proof fn ax_vec_len_items(v: &Vec<Item>)
+    ensures #[trigger] v@.len() < isize::MAX,
+{ admit(); }
+
 /// unvisited items on top of the work list add one value each
 pub proof fn lemma_sim_nones(todo: Seq<Item>, base: int, h: int)
     requires 0 <= base <= todo.len(), forall|i: int| base <= i < todo.len() ==> (#[trigger] todo[i]).1 is None,
@@ -96,9 +105,9 @@ def transform(body):
     flag = m.group(2) == "false"
     body = body[:m.start()] + ("drain_rev_onto_flag" if flag else "drain_rev_onto") + "(&mut child_vec, &mut todo);" + body[m.end():]
     n += 1
-    m = re.search(r"&stack\[(stack\.len\(\) - \w+)\.\.\]", body)
+    m = re.search(r"&stack\[([^\]]+?)\.\.\]", body)
     if not m:
-        raise AnchorError("bottom_up_multi_pat: `&stack[stack.len() - N..]` not found")
+        raise AnchorError("bottom_up_multi_pat: `&stack[<start>..]` not found")
     body = body[:m.start()] + f"slice_from(&stack, {m.group(1)})" + body[m.end():]
     n += 1
     for a, b in (("let mut todo = vec![", "let mut todo: Vec<FlagItem> = vec![" if flag else "let mut todo: Vec<Item> = vec!["), ("let mut stack = Vec::with_capacity(", "let mut stack: Vec<R> = Vec::with_capacity("),
